@@ -12,10 +12,11 @@
 // WaitTimeout(5ms) probe runs under a watchdog.  Every case is written as a Gallina term of
 // type WGJudge.wg_case and as JSON.
 //
-//	c01 -seed N -out PREFIX -mode corpus|random|pb|exhaustive|randprog|replay|stress [...]
+//	c01 -seed N -out PREFIX -mode corpus|random|pb|exhaustive|starve|randprog|replay|stress [...]
 package main
 
 import (
+	"context"
 	"encoding/json"
 	"flag"
 	"fmt"
@@ -36,6 +37,17 @@ import (
 type callT struct {
 	K string `json:"k"` // "add" | "wait"
 	D int    `json:"d"`
+	// Via: "inc" / "dec" make the call through wg.Inc() / wg.Dec() (delta +1 / -1); the recorded
+	// event is the Add(+1) / Add(-1) they are documented to be
+	Via string `json:"via,omitempty"`
+}
+
+// probeT is the answer of WaitTimeout / WaitCTX(expired context) called by the controller right
+// after step Pos, at a point where no Add is in flight: Code = 4*wt + wc with
+// wt: 0 nil, 1 ErrWGTimeout, 2 hung, 3 not called; wc: 0 nil, 1 the context's error, 2 hung, 3 not called
+type probeT struct {
+	Pos  int `json:"pos"`
+	Code int `json:"code"`
 }
 
 type itemT struct {
@@ -57,6 +69,8 @@ type caseT struct {
 	Obs   []itemT   `json:"obs"`
 	Tmo   int       `json:"tmo"` // 0 nil, 1 ErrWGTimeout, 2 hung, 3 not probed
 	Pre   int       `json:"preemptions"`
+	// Probes: WaitTimeout / WaitCTX called at rest points in the middle of the schedule and at its end
+	Probes []probeT `json:"probes,omitempty"`
 }
 
 const (
@@ -93,6 +107,7 @@ type runner struct {
 	inSteps []int // steps inside the current call
 	solo    []int // consecutive steps of this thread
 	stuck   []bool
+	site    []int // site the thread is parked at (0 = between calls / finished)
 	addsIn  int
 	sum     int // sum of the deltas of all Add calls made so far
 	pre     int
@@ -126,13 +141,21 @@ func newRunner(progs [][]callT) *runner {
 	r.inSteps = make([]int, n)
 	r.solo = make([]int, n)
 	r.stuck = make([]bool, n)
+	r.site = make([]int, n)
 	calls := make([][]vsched.Call, n)
 	for t, p := range progs {
 		for _, c := range p {
 			c := c
 			switch c.K {
 			case "add":
-				calls[t] = append(calls[t], func() any { return r.wg.Add(c.D) })
+				switch {
+				case c.Via == "inc" && c.D == 1:
+					calls[t] = append(calls[t], func() any { return r.wg.Inc() })
+				case c.Via == "dec" && c.D == -1:
+					calls[t] = append(calls[t], func() any { return r.wg.Dec() })
+				default:
+					calls[t] = append(calls[t], func() any { return r.wg.Add(c.D) })
+				}
 			default:
 				calls[t] = append(calls[t], func() any { return r.wg.Wait() })
 			}
@@ -167,6 +190,7 @@ func (r *runner) allowed() []int {
 
 func (r *runner) stepThread(t int) {
 	res := r.s.Step(t)
+	r.site[t] = res.Site
 	it := itemT{Tid: t, Ev: "tau", Site: res.Site}
 	if res.Stutter {
 		it.Ev = "stutter"
@@ -209,6 +233,9 @@ func (r *runner) stepThread(t int) {
 			}
 		}
 	}
+	if r.inCall[t] && res.Site != 0 {
+		it.Site = canonSite(r.progs[t][r.callIdx[t]], res.Site)
+	}
 	if it.Ev == "tau" {
 		r.inSteps[t]++
 	}
@@ -242,8 +269,14 @@ func (r *runner) stepThread(t int) {
 // descheduled for more than 5ms between NewTimer and select (loaded machine), so a timeout
 // answer is re-tried up to three times in that situation: a wait group that really hands out an
 // open channel at count 0 times out every time.
+// every hung probe costs about a second of watchdog time: after a few of them (each one is a
+// failing input already) the process stops probing
+var hungProbes int
+
+const maxHungProbes = 3
+
 func (r *runner) probeTimeout() int {
-	if r.addsIn != 0 {
+	if r.addsIn != 0 || hungProbes >= maxHungProbes {
 		return 3
 	}
 	attempts := 1
@@ -255,6 +288,66 @@ func (r *runner) probeTimeout() int {
 		v = r.probeOnce()
 	}
 	return v
+}
+
+// watchdog waits for a probe.  A probe that has not answered after 400 ms is hung if it is
+// SPINNING (it keeps making yields: the pinned Wait loop) - it is then unwound at its next yield.
+// One that makes no yields is either blocked for good or this process is starved of CPU (the 5 ms
+// timer of a WaitTimeout has been seen to take longer than 400 ms on a machine with a load of 150):
+// it gets 6 more seconds before it is declared hung and abandoned.
+func (r *runner) watchdog(done chan int) int {
+	y0 := r.s.ProbeYields.Load()
+	select {
+	case v := <-done:
+		return v
+	case <-time.After(400 * time.Millisecond):
+	}
+	if r.s.ProbeYields.Load()-y0 < 50 {
+		select {
+		case v := <-done:
+			return v
+		case <-time.After(6 * time.Second):
+		}
+	}
+	r.s.ProbeAbort.Store(true)
+	select {
+	case <-done:
+	case <-time.After(500 * time.Millisecond):
+	}
+	r.s.ProbeAbort.Store(false)
+	hungProbes++
+	return 2
+}
+
+// probeCtx calls the real WaitCTX with an already cancelled context under the watchdog:
+// 0 nil, 1 the context's error, 2 hung.  With a positive count the only ready case of its select
+// is ctx.Done(), so the answer must be the error; at count 0 both cases are ready.
+func (r *runner) probeCtx() int {
+	if hungProbes >= maxHungProbes {
+		return 3
+	}
+	done := make(chan int, 1)
+	r.s.ProbeAbort.Store(false)
+	go func() {
+		defer func() {
+			if x := recover(); x != nil {
+				done <- 2
+			}
+		}()
+		ctx, cancel := context.WithCancel(context.Background())
+		cancel()
+		if err := r.wg.WaitCTX(ctx); err == nil {
+			done <- 0
+		} else {
+			done <- 1
+		}
+	}()
+	return r.watchdog(done)
+}
+
+// probeRest: both probes at a point where no Add is in flight
+func (r *runner) probeRest() int {
+	return 4*r.probeTimeout() + r.probeCtx()
 }
 
 func (r *runner) probeOnce() int {
@@ -273,17 +366,7 @@ func (r *runner) probeOnce() int {
 			done <- 1
 		}
 	}()
-	select {
-	case v := <-done:
-		return v
-	case <-time.After(400 * time.Millisecond):
-		r.s.ProbeAbort.Store(true)
-		select {
-		case <-done:
-		case <-time.After(5 * time.Second):
-		}
-		return 2
-	}
+	return r.watchdog(done)
 }
 
 // run executes one case.  The last thread of progs is the probe thread (a single fresh Wait):
@@ -291,7 +374,12 @@ func (r *runner) probeOnce() int {
 func runCase(kind, name string, progs [][]callT, ch chooser, probeTmo bool) caseT {
 	r := newRunner(progs)
 	defer r.close()
+	if b, ok := ch.(interface{ bind(*runner) }); ok {
+		b.bind(r)
+	}
 	last, probe := -1, len(progs)-1
+	var probes []probeT
+	rests := 0
 	for step := 0; step < 400; step++ {
 		al := r.allowed()
 		var main []int
@@ -328,11 +416,23 @@ func runCase(kind, name string, progs [][]callT, ch chooser, probeTmo bool) case
 		}
 		r.stepThread(t)
 		last = t
+		if probeTmo && r.addsIn == 0 {
+			// WaitTimeout / WaitCTX in the middle of the schedule, at the 3rd and the 9th point
+			// where no Add is in flight (other goroutines may be parked inside Wait there)
+			rests++
+			if rests == 3 || rests == 9 {
+				probes = append(probes, probeT{len(r.obs) - 1, r.probeRest()})
+			}
+		}
 	}
 	c := caseT{Kind: kind, Name: name, Progs: progs, Sched: r.sched, Obs: r.obs, Tmo: 3, Pre: r.pre}
 	if probeTmo {
 		c.Tmo = r.probeTimeout()
+		if r.addsIn == 0 && len(r.obs) > 0 {
+			probes = append(probes, probeT{len(r.obs) - 1, 4*3 + r.probeCtx()})
+		}
 	}
+	c.Probes = probes
 	return c
 }
 
@@ -373,6 +473,11 @@ type dfsChooser struct {
 	stack  []choice
 	depth  int
 	budget int
+	// writeOnly: a running thread is preempted only in front of an operation that can change
+	// shared memory (or between calls); preempting in front of a load instead of in front of the
+	// next write gives the other threads nothing new to see
+	writeOnly bool
+	r         *runner
 }
 type choice struct {
 	opts []int
@@ -381,11 +486,13 @@ type choice struct {
 
 func (d *dfsChooser) begin() { d.depth = 0; d.budget = d.pre }
 
+func (d *dfsChooser) bind(r *runner) { d.r = r }
+
 func (d *dfsChooser) next(step, last int, le bool, allowed []int) int {
 	var opts []int
 	if le {
 		opts = append(opts, last)
-		if d.pre < 0 || d.budget > 0 {
+		if (d.pre < 0 || d.budget > 0) && !(d.writeOnly && d.r != nil && d.r.inCall[last] && !isWriteSite(d.r.site[last])) {
 			for _, a := range allowed {
 				if a != last {
 					opts = append(opts, a)
@@ -424,9 +531,245 @@ func (d *dfsChooser) advance() bool {
 	return false
 }
 
+
+// ---------------------------------------------------------------- site table, directed schedules
+
+// siteOps: site -> shared-memory operations performed there (written by xlate_conc -sites from the
+// same walk that instrumented the source).  Used only to DIRECT the schedule search (where is a
+// compare-and-swap, where is a write); every schedule it produces is an ordinary schedule and is
+// recorded and judged like any other.
+var siteOps = map[int][]string{}
+
+func loadSites(path string) {
+	if path == "" {
+		return
+	}
+	b, err := os.ReadFile(path)
+	if err != nil {
+		fmt.Fprintln(os.Stderr, "site table:", err)
+		os.Exit(2)
+	}
+	var tab map[string]struct {
+		Func string   `json:"func"`
+		Ops  []string `json:"ops"`
+	}
+	if err := json.Unmarshal(b, &tab); err != nil {
+		fmt.Fprintln(os.Stderr, "site table:", err)
+		os.Exit(2)
+	}
+	for k, v := range tab {
+		var n int
+		fmt.Sscan(k, &n)
+		siteOps[n] = v.Ops
+	}
+}
+
+// siteMap: API function -> site in the source -> canonical site (written by xlate_conc -sitemap:
+// the sites a function reaches through its helpers, numbered in the order of a walk of its call
+// tree).  Recorded sites are canonical, so that moving an operation into a helper does not change
+// what is recorded; the directed search above works on the source's own sites.
+var siteMap = map[string]map[int]int{}
+
+func loadSiteMap(path string) {
+	if path == "" {
+		return
+	}
+	b, err := os.ReadFile(path)
+	if err != nil {
+		fmt.Fprintln(os.Stderr, "site map:", err)
+		os.Exit(2)
+	}
+	var tab map[string]map[string]int
+	if err := json.Unmarshal(b, &tab); err != nil {
+		fmt.Fprintln(os.Stderr, "site map:", err)
+		os.Exit(2)
+	}
+	for fn, m := range tab {
+		siteMap[fn] = map[int]int{}
+		for k, v := range m {
+			var n int
+			fmt.Sscan(k, &n)
+			siteMap[fn][n] = v
+		}
+	}
+}
+
+func canonSite(c callT, site int) int {
+	fn := "Add"
+	if c.K == "wait" {
+		fn = "Wait"
+	}
+	if v, ok := siteMap[fn][site]; ok {
+		return v
+	}
+	return site
+}
+
+func isCASSite(site int) bool {
+	for _, o := range siteOps[site] {
+		if strings.HasPrefix(o, "ACAS:") {
+			return true
+		}
+	}
+	return false
+}
+
+// isWriteSite: the operation at the site can change shared memory (anything but plain loads).
+// Without a site table every site counts as a write.
+func isWriteSite(site int) bool {
+	ops, ok := siteOps[site]
+	if !ok {
+		return true
+	}
+	for _, o := range ops {
+		if !strings.HasPrefix(o, "ALoad:") {
+			return true
+		}
+	}
+	return false
+}
+
+// starveChooser is an ADVERSARIAL schedule prefix followed by an ordinary chooser (the tail):
+//
+//	lead     whole calls of other threads run first (brings the group to a chosen state);
+//	window   whenever the victim is parked in front of a compare-and-swap - it has loaded the
+//	         state and is about to publish its update - m whole calls of other threads run first,
+//	         then the victim takes its step; repeated for k windows.
+//
+// With m = 1 and calls that change the state the victim LOSES k compare-and-swap rounds in a row
+// (code whose behaviour depends on the number of lost rounds - bounded retries, back-off,
+// fallback paths - is driven down that path for every k); with m = 2 and calls that drive the
+// state away and back (Dec to zero, Inc from zero) the victim's compare-and-swap meets a state
+// that looks like the one it loaded (ABA).  After the k windows, or when nobody is left to feed
+// them, the tail chooser (bounded-preemption enumeration / random) takes over.
+type starveChooser struct {
+	victim, k, m, lead int
+	tail               chooser
+	r                  *runner
+	leadDone, w, fed   int
+	feeding, target    int
+	inTail             bool
+}
+
+func (c *starveChooser) bind(r *runner) { c.r = r; c.feeding = -1 }
+
+func contains(l []int, t int) bool {
+	for _, x := range l {
+		if x == t {
+			return true
+		}
+	}
+	return false
+}
+
+// feed returns the thread to step in order to run one more whole foreign call, -1 when nobody can;
+// done reports that the call it was running has just completed.
+func (c *starveChooser) feed(allowed []int) (t int, done bool) {
+	r := c.r
+	if c.feeding >= 0 {
+		f := c.feeding
+		if r.callIdx[f] >= c.target || r.s.Finished(f) {
+			c.feeding = -1
+			return -1, true
+		}
+		if contains(allowed, f) {
+			return f, false
+		}
+		c.feeding = -1 // gated or parked: give up on it
+	}
+	for _, f := range allowed {
+		if f != c.victim && !r.inCall[f] {
+			c.feeding, c.target = f, r.callIdx[f]+1
+			return f, false
+		}
+	}
+	for _, f := range allowed {
+		if f != c.victim {
+			c.feeding, c.target = f, r.callIdx[f]+1
+			return f, false
+		}
+	}
+	return -1, false
+}
+
+func (c *starveChooser) next(step, last int, le bool, allowed []int) int {
+	r := c.r
+	for !c.inTail {
+		if c.leadDone < c.lead {
+			t, done := c.feed(allowed)
+			if done {
+				c.leadDone++
+				continue
+			}
+			if t >= 0 {
+				return t
+			}
+			c.leadDone = c.lead
+			continue
+		}
+		v := c.victim
+		if c.w >= c.k || !contains(allowed, v) {
+			c.inTail = true
+			break
+		}
+		if !(r.inCall[v] && isCASSite(r.site[v])) {
+			return v
+		}
+		if c.fed < c.m {
+			t, done := c.feed(allowed)
+			if done {
+				c.fed++
+				continue
+			}
+			if t >= 0 {
+				return t
+			}
+			c.inTail = true // nobody left to feed the window
+			break
+		}
+		c.fed = 0
+		c.w++
+		return v
+	}
+	return c.tail.next(step, last, le, allowed)
+}
+
+type starveShape struct {
+	name    string
+	victim  []callT
+	lead    []callT // feeder's calls before the victim starts
+	window  []callT // feeder's calls per window (m = len)
+	tailThr []callT
+}
+
+// the shapes of the directed search: victim | feeder | third goroutine.  The feeder has exactly
+// lead + k*m calls, so after the prefix only the victim and the third goroutine are live.
+var starveShapes = []starveShape{
+	{"starve:inc", []callT{add(1)}, nil, []callT{add(1)}, []callT{add(1)}},
+	{"starve:inc/inc-dec", []callT{add(1)}, nil, []callT{add(1)}, []callT{add(1), add(-1)}},
+	{"starve:inc/wait", []callT{add(1)}, nil, []callT{add(1)}, []callT{wait}},
+	{"starve:inc@1", []callT{add(1)}, []callT{add(1)}, []callT{add(1)}, []callT{add(1)}},
+	{"starve:dec@2", []callT{add(-1)}, []callT{add(2)}, []callT{add(1)}, []callT{add(1)}},
+	{"starve:dec@2/wait", []callT{add(-1)}, []callT{add(2)}, []callT{add(1)}, []callT{wait}},
+	{"aba:inc@1/wait", []callT{add(1)}, []callT{add(1)}, []callT{add(-1), add(1)}, []callT{wait}},
+	{"aba:inc@1/inc", []callT{add(1)}, []callT{add(1)}, []callT{add(-1), add(1)}, []callT{add(1)}},
+	{"aba:inc-dec@1/wait", []callT{add(1), add(-1)}, []callT{add(1)}, []callT{add(-1), add(1)}, []callT{wait}},
+}
+
+func (sh starveShape) progs(k int) [][]callT {
+	feeder := append([]callT{}, sh.lead...)
+	for i := 0; i < k; i++ {
+		feeder = append(feeder, sh.window...)
+	}
+	return [][]callT{sh.victim, feeder, sh.tailThr}
+}
+
 // ---------------------------------------------------------------- programs
 
 func add(d int) callT { return callT{K: "add", D: d} }
+
+var inc = callT{K: "add", D: 1, Via: "inc"}
+var dec = callT{K: "add", D: -1, Via: "dec"}
 
 var wait = callT{K: "wait"}
 
@@ -438,17 +781,17 @@ type namedProg struct {
 // the catalogue: 2-4 goroutines, 1-4 calls each, decrements after matching increments
 // (cross-thread decrements are gated by the scheduler until the increment has returned)
 var catalogue = []namedProg{
-	{"inc|inc-dec|wait", [][]callT{{add(1)}, {add(1), add(-1)}, {wait}}},
+	{"inc|inc-dec|wait", [][]callT{{inc}, {inc, dec}, {wait}}},
 	{"inc|inc-dec-inc|wait", [][]callT{{add(1)}, {add(1), add(-1), add(1)}, {wait}}},
 	{"inc-dec|inc", [][]callT{{add(1), add(-1)}, {add(1)}}},
-	{"inc-dec|inc-dec", [][]callT{{add(1), add(-1)}, {add(1), add(-1)}}},
-	{"inc-dec|wait-wait", [][]callT{{add(1), add(-1)}, {wait, wait}}},
+	{"inc-dec|inc-dec", [][]callT{{inc, dec}, {add(1), add(-1)}}},
+	{"inc-dec|wait-wait", [][]callT{{inc, dec}, {wait, wait}}},
 	{"inc-dec|inc-dec|wait", [][]callT{{add(1), add(-1)}, {add(1), add(-1)}, {wait}}},
-	{"add2|dec|dec|wait", [][]callT{{add(2)}, {add(-1)}, {add(-1)}, {wait}}},
+	{"add2|dec|dec|wait", [][]callT{{add(2)}, {dec}, {add(-1)}, {wait}}},
 	{"add2-dec2|inc-wait-dec", [][]callT{{add(2), add(-2)}, {add(1), wait, add(-1)}}},
 	{"inc-wait-dec-wait|inc-dec", [][]callT{{add(1), wait, add(-1), wait}, {add(1), add(-1)}}},
 	{"inc-dec-inc-dec|wait|wait", [][]callT{{add(1), add(-1), add(1), add(-1)}, {wait}, {wait}}},
-	{"inc|dec|inc|dec", [][]callT{{add(1)}, {add(-1)}, {add(1)}, {add(-1)}}},
+	{"inc|dec|inc|dec", [][]callT{{inc}, {dec}, {add(1)}, {add(-1)}}},
 	{"inc-inc|dec-wait|dec-wait", [][]callT{{add(1), add(1)}, {add(-1), wait}, {add(-1), wait}}},
 	// Add(0) is an Add call like any other (wg.Add(len(batch)) with an empty batch): on an idle
 	// group, between an Inc and its Dec, and after the group returned to zero
@@ -458,6 +801,11 @@ var catalogue = []namedProg{
 	// increments by more than one from zero, a decrement by more than one reaching exactly zero
 	{"add3-dec-dec2|wait", [][]callT{{add(3), add(-1), add(-2)}, {wait}}},
 	{"add3|dec3-wait", [][]callT{{add(3)}, {add(-3), wait}}},
+	// four goroutines: three producers each returning the group towards zero and a waiter; cross
+	// goroutine decrements (gated until covered) next to two waiters; Inc/Dec and Add mixed
+	{"inc-dec|inc-dec|inc-dec|wait", [][]callT{{inc, dec}, {add(1), add(-1)}, {inc, add(-1)}, {wait}}},
+	{"inc|inc|dec-dec|wait-wait", [][]callT{{inc}, {add(1)}, {dec, add(-1)}, {wait, wait}}},
+	{"add2-dec-dec|wait|inc-dec|wait", [][]callT{{add(2), dec, dec}, {wait}, {inc, dec}, {wait}}},
 }
 
 type corpusEntry struct {
@@ -475,6 +823,7 @@ var corpus = []corpusEntry{
 	{"C02-count1-with-sentinel", [][]callT{{add(1), add(-1)}, {add(1)}, {wait}},
 		[]int{0, 0, 0, 0, 0, 1, 1, 1, 0, 0, 1, 2, 2, 2, 2, 2}},
 	{"sequential", [][]callT{{add(1), wait, add(-1), wait}}, nil},
+	{"sequential-inc-dec", [][]callT{{inc, wait, dec, wait, inc, inc, dec, dec}}, nil},
 	{"add0-idle", [][]callT{{add(0)}}, nil},
 	{"add0-idle-then-cycle", [][]callT{{add(0), wait, add(1), add(-1)}}, nil},
 	{"add0-inside-and-after-cycle", [][]callT{{add(1), add(0), wait, add(-1), add(0), wait}}, nil},
@@ -500,7 +849,11 @@ func randProg(r *rand.Rand) [][]callT {
 				p[t] = append(p[t], add(0))
 			case x < 4:
 				d := 1 + r.IntN(3)
-				p[t] = append(p[t], add(d))
+				if d == 1 && r.IntN(2) == 0 {
+					p[t] = append(p[t], inc)
+				} else {
+					p[t] = append(p[t], add(d))
+				}
 				bal += d
 			case x < 7:
 				// a decrement: mostly of this thread's own balance, sometimes of another thread's
@@ -508,7 +861,11 @@ func randProg(r *rand.Rand) [][]callT {
 				if bal >= 2 && r.IntN(2) == 0 {
 					d = bal // a decrement by more than one reaching exactly this thread's zero
 				}
-				p[t] = append(p[t], add(-d))
+				if d == 1 && r.IntN(2) == 0 {
+					p[t] = append(p[t], dec)
+				} else {
+					p[t] = append(p[t], add(-d))
+				}
 				bal -= d
 			default:
 				p[t] = append(p[t], wait)
@@ -583,6 +940,7 @@ func gCase(c caseT) string {
 //	nthreads, then per thread: ncalls, then per call: kind (0 add, 1 wait), delta
 //	tmo, nsteps, then per step: tid, event (0 call, 1 ret, 2 tau, 3 stutter, 4 ret-panic),
 //	call kind, call delta, value, Count(), site, nclosed, closed...
+//	nprobes, then per probe: position, code
 //
 // WGJudge.decode_case reads it back.  Elaborating such a literal costs a few ms per case, the
 // readable constructor form cost 20-35 ms.
@@ -615,6 +973,10 @@ func encCase(c caseT) string {
 		}
 		f = append(f, it.Tid, ev, k, sgn(d), sgn(it.Val), sgn(it.Count), it.Site, len(it.Closed))
 		f = append(f, it.Closed...)
+	}
+	f = append(f, len(c.Probes))
+	for _, p := range c.Probes {
+		f = append(f, p.Pos, p.Code)
 	}
 	for _, v := range f {
 		if v < 0 || v > 4095 {
@@ -869,7 +1231,7 @@ func stress(seed uint64, iters int, secs float64, em *emitter, maxTraces int) in
 func main() {
 	seed := flag.Uint64("seed", 1, "seed")
 	outp := flag.String("out", "", "output prefix")
-	mode := flag.String("mode", "corpus", "corpus|random|pb|exhaustive|randprog|replay|stress")
+	mode := flag.String("mode", "corpus", "corpus|random|pb|exhaustive|starve|randprog|replay|stress")
 	n := flag.Int("n", 100, "schedules per program (random), programs (randprog), iterations (stress)")
 	pre := flag.Int("pre", 2, "preemption bound (pb)")
 	only := flag.String("progs", "", "comma separated catalogue indices (default all)")
@@ -878,7 +1240,16 @@ func main() {
 	file := flag.String("file", "", "replay: JSON file with progs and sched")
 	secs := flag.Float64("secs", 0, "stress: run for this many seconds (0 = -n iterations)")
 	flag.BoolVar(&readable, "readable", false, "write the cases as readable WGCase terms instead of packed words")
+	sitesFile := flag.String("sites", "", "site table written by xlate_conc -sites (directs the starve mode and -wo)")
+	kmax := flag.Int("k", 6, "starve: windows (lost compare-and-swap rounds) 1..k")
+	kmin := flag.Int("kmin", 1, "starve: smallest number of windows")
+	writeOnly := flag.Bool("wo", false, "pb/starve: preempt only in front of writes")
+	shapes := flag.String("shapes", "", "starve: comma separated shape indices (default all)")
+	procs := flag.Int("procs", 1, "GOMAXPROCS of the scheduled modes (stress always uses the default)")
+	siteMapFile := flag.String("sitemap", "", "canonical site table written by xlate_conc -sitemap")
 	flag.Parse()
+	loadSites(*sitesFile)
+	loadSiteMap(*siteMapFile)
 	if *mode == "stress" {
 		var em *emitter
 		if *outp != "" {
@@ -893,6 +1264,11 @@ func main() {
 		}
 		return
 	}
+	// Scheduled modes: exactly one goroutine runs at any time, so one P is enough - and it makes
+	// per-P runtime state (sync.Pool's private slots, timer heaps) a function of the schedule
+	// alone: with several Ps the P a woken worker lands on, hence whether a pooled object put back
+	// by one goroutine is the one the next goroutine gets, varied from run to run.
+	runtime.GOMAXPROCS(*procs)
 	r := gal.NewRand(*seed)
 	em := &emitter{out: gal.NewOut(*outp), seen: map[string]bool{}}
 	defer em.out.Close()
@@ -959,9 +1335,64 @@ func main() {
 				em.emit(runCase("randprog", "random-program", withProbe(p), &randChooser{r, st}, probe()))
 			}
 		}
+	case "starve":
+		// directed search: adversarial prefix (see starveChooser), then every tail with at most
+		// -pre preemptions, plus -n random tails per prefix
+		hasCAS := false
+		for site := range siteOps {
+			hasCAS = hasCAS || isCASSite(site)
+		}
+		if !hasCAS {
+			// no compare-and-swap anywhere (a lock-based variant, ..): there is no window to
+			// direct the search at; the other modes cover such code
+			fmt.Println("STARVE skipped: the site table has no compare-and-swap site")
+			break
+		}
+		var shp []starveShape
+		if *shapes == "" {
+			shp = starveShapes
+		} else {
+			for _, x := range strings.Split(*shapes, ",") {
+				var i int
+				fmt.Sscan(x, &i)
+				if i >= 0 && i < len(starveShapes) {
+					shp = append(shp, starveShapes[i])
+				}
+			}
+		}
+		for _, sh := range shp {
+			for k := *kmin; k <= *kmax; k++ {
+				name := fmt.Sprintf("%s k=%d", sh.name, k)
+				progs := withProbe(sh.progs(k))
+				mk := func(tail chooser) *starveChooser {
+					return &starveChooser{victim: 0, k: k, m: len(sh.window), lead: len(sh.lead), tail: tail}
+				}
+				d := &dfsChooser{pre: *pre, writeOnly: *writeOnly}
+				cnt, steps := 0, 0
+				for {
+					d.begin()
+					cs := runCase("starve", name, progs, mk(d), probe())
+					steps += len(cs.Obs)
+					em.emit(cs)
+					cnt++
+					if !d.advance() || cnt >= *maxCases {
+						break
+					}
+				}
+				for i := 0; i < *n; i++ {
+					st := []float64{0.5, 0.8}[i%2]
+					cs := runCase("starve-random", name, progs, mk(&randChooser{r, st}), probe())
+					steps += len(cs.Obs)
+					em.emit(cs)
+					cnt++
+				}
+				fmt.Printf("ENUM program=%q mode=starve pre=%d threads=%d schedules=%d steps=%d complete=%v\n",
+					name, d.pre, len(progs)-1, cnt, steps, cnt < *maxCases)
+			}
+		}
 	case "pb", "exhaustive":
 		for _, np := range sel {
-			d := &dfsChooser{pre: *pre}
+			d := &dfsChooser{pre: *pre, writeOnly: *writeOnly}
 			if *mode == "exhaustive" {
 				d.pre = -1
 			}
